@@ -710,8 +710,8 @@ fn c07(tier: &str, thorough: bool) -> i32 {
 fn c09(tier: &str, thorough: bool) -> i32 {
     let ctx = leak(Ctx::new("C09", tier, level_mc(), "e1n", &["model", "refusal", "spec", "reopen"]));
     common_assumptions(ctx);
-    ctx.assume("upper-casing is judged only on the explicit table of names.rs (ASCII, Latin-1, Greek, Cyrillic, fullwidth; surrogate halves and everything else unchanged); names outside the alphabet are not covered");
-    ctx.set_rule("(a) every name of the alphabet (22 base names incl. cased/caseless non-ASCII, exceptional upper-casing, supplementary plane; x^n, e-acute^n and emoji names of every length 1..40 units; each of / \\ : ! embedded) x every creation call at two depths, full oracle (model incl. case-variant lookups, image unchanged on refusal, independent checker, reopen); (b) every ordered selection of k pairwise case-distinct names inserted in that order with the full oracle after each insertion, collisions up to case, then every removal order; (c) every path spelling x every API call incl. escaping and non-UTF-8 paths");
+    ctx.assume(&format!("upper-casing is judged by the BMP-wide simple upper-case table generated from CPython's Unicode database (version {}), on the code units where Rust's std gives the same single-character answer; units whose upper-casing is not one BMP character (sharp s, ligatures, iota-subscript forms) or on which the two databases disagree (letters cased only in newer Unicode versions) are not judged; surrogate halves are never folded (MS-CFB 2.6.4 works on UTF-16 code units), so cased supplementary-plane letters are outside the alphabet", crate::upper_table::UNIDATA_VERSION));
+    ctx.set_rule("(a) every name of the alphabet (22 base names incl. cased/caseless non-ASCII, exceptional upper-casing, supplementary plane; x^n, e-acute^n and emoji names of every length 1..40 units; each of / \\ : ! embedded) x every creation call at two depths, full oracle (model incl. case-variant lookups, image unchanged on refusal, independent checker, reopen); (b) every ordered selection of k pairwise case-distinct names inserted in that order with the full oracle after each insertion, collisions up to case, then every removal order; (c) every path spelling x every API call incl. escaping and non-UTF-8 paths; (d) every judged BMP code unit c in a name q{c}z: created, found, listed, reopened, independently parsed; for cased c every other member of its case class must collide and address the same object, and a caseless witness unit between c and its upper-case form fixes the listing order (quick: every cased unit, every 16th caseless unit; thorough: all)");
     let mut hists = 0u64;
     let mut steps = 0u64;
     let mut add = |st: crate::e1n::NStats, label: &str, ctx: &Ctx| {
@@ -722,6 +722,8 @@ fn c09(tier: &str, thorough: bool) -> i32 {
     for v in [3u16, 4] {
         add(crate::e1n::validity(ctx, v), &format!("v{} validity", v), ctx);
         add(crate::e1n::spellings(ctx, v), &format!("v{} spellings", v), ctx);
+        // every cased BMP unit; caseless units: every 16th in the quick tier, all of them in thorough
+        add(crate::e1n::bmp_sweep(ctx, v, if thorough { 1 } else { 16 }), &format!("v{} BMP sweep", v), ctx);
         let names = crate::e1n::base_names();
         if thorough {
             add(crate::e1n::coexistence(ctx, v, &names, 3), &format!("v{} coexistence k=3 over {} names", v, names.len()), ctx);
